@@ -850,7 +850,13 @@ class Scanner:
         length = 0
         while '0' <= self.peek(length) <= '9':
             length += 1
-        value = int(self.prefix(length))
+        number = self.prefix(length)
+        try:
+            value = int(number)
+        except ValueError:
+            raise ScannerError("while scanning a directive", start_mark,
+                    "version number is too long (%d digits)" % length,
+                    self.get_mark())
         self.forward(length)
         return value
 
